@@ -57,6 +57,7 @@ class TestCaseMutation(MutationOperator):
                 changed = True
 
         # In case mutation removes all calls on the SUT.
+        chopped = changed
         backup = chromosome.test_case.clone()
 
         if (
@@ -81,8 +82,10 @@ class TestCaseMutation(MutationOperator):
         assert test_factory, "Required for mutation"
         if not test_factory.has_call_on_sut(chromosome.test_case):
             chromosome.test_case = backup
-            # The (restored) test case is only modified if the insertion succeeds
-            changed = chromosome._mutation_insert()  # noqa: SLF001
+            # The restored test case is the chopped one; beyond that it is only modified
+            # if the insertion succeeds
+            inserted = chromosome._mutation_insert()  # noqa: SLF001
+            changed = chopped or inserted
 
         if changed:
             chromosome.changed = True
